@@ -817,3 +817,85 @@ def py_find_index(ctx, py, mods, only=None, rule="PY-FIND-INDEX"):
                 ctx.ob(rule, "%s.%s" % (mn, qn), bad is None, m.loc(bad) if bad is not None else m.loc(fn),
                        "find() results are tested before use" if bad is None else "`%s` uses find() as a bound without testing for -1" % ast.unparse(bad)[:80])
     return n
+
+
+def clear_domain(ctx, P, scope, rule="CLEAR-DOMAIN", tus=None):
+    """memset over a struct-field array covers the domain the array was allocated for."""
+    from sa.expr import strip, walk, estr, xstr, callee, calls, local_aliases
+    from sa.guards import CountResolver
+    ctx.rule(rule, "a whole-array reset `memset(obj->f, c, A * B * sizeof …)` ranges over the same domain as the allocation of obj->f: "
+                   "each factor of the count denotes the same row count (resolved through locals, fields and parameters; an offset "
+                   "such as +1 is immaterial) or is the same expression as a factor of the allocation count.  Resetting a per-node "
+                   "accumulator over the number of focal nodes leaves the rest of it dirty for the next window")
+    R = CountResolver(P)
+    keys = [k for k in (tus or LIB_TUS)]
+
+    def factors(node, fn, al):
+        out = []
+
+        def flat(n):
+            n = strip(n)
+            if n is not None and n.k == "BinaryOperator" and n.op == "*":
+                flat(n.kids[0])
+                flat(n.kids[1])
+            elif n is not None and "sizeof" not in estr(n):
+                out.append(n)
+        flat(node)
+        res = []
+        for f in out:
+            cls = R.classify(f, fn)
+            if cls is not None:
+                res.append("count(%s)" % cls[0])
+            else:
+                t = re.sub(r"\s+", "", xstr(f, al))
+                t = re.sub(r"\((?:tsk_size_t|size_t|tsk_id_t)\)", "", t)
+                res.append(re.sub(r"^\w+->", "", t))
+        return sorted(res)
+    allocs = {}
+    for key in keys:
+        tu = P.tus[key]
+        for fn in tu.funcs.values():
+            if fn.body is None:
+                continue
+            al = None
+            for x in walk(fn.body):
+                if x.k == "BinaryOperator" and x.op == "=":
+                    l, r = strip(x.kids[0]), strip(x.kids[1])
+                    if l is None or r is None or l.k != "MemberExpr" or r.k != "CallExpr":
+                        continue
+                    c = callee(r)
+                    al = al or local_aliases(fn)
+                    if c in ("tsk_malloc", "tsk_realloc", "malloc") and len(r.kids) >= 2:
+                        allocs.setdefault((key, l.name), []).append(factors(r.kids[-1], fn, al))
+                    elif c in ("tsk_calloc", "calloc") and len(r.kids) >= 3:
+                        allocs.setdefault((key, l.name), []).append(factors(r.kids[1], fn, al))
+    n = 0
+    for key in keys:
+        tu = P.tus[key]
+        for fn in tu.funcs.values():
+            if fn.body is None or not scope(key, fn.name):
+                continue
+            al = local_aliases(fn)
+            k = 0
+            for c in calls(fn.body):
+                if callee(c) not in ("tsk_memset", "memset") or len(c.kids) < 4:
+                    continue
+                d = strip(c.kids[1])
+                if d is None:
+                    continue
+                name = d.name if d.k == "MemberExpr" else None
+                if name is None and d.k == "DeclRefExpr":
+                    m = re.search(r"->(\w+)$", xstr(d, al))
+                    name = m.group(1) if m else None
+                if not name or (key, name) not in allocs:
+                    continue
+                got = factors(c.kids[3], fn, al)
+                if not got:
+                    continue
+                n += 1
+                ok = any(got == a for a in allocs[(key, name)])
+                ctx.ob(rule, "%s|%s@%d" % (fn.name, name, k), ok, tu.loc(c),
+                       "%s reset over %s, its allocation domain" % (name, " x ".join(got)) if ok else
+                       "%s is reset over %s but allocated over %s" % (name, " x ".join(got), " / ".join(" x ".join(a) for a in allocs[(key, name)])))
+                k += 1
+    return n
